@@ -284,6 +284,7 @@ pub mod tokio {
         pub struct JoinSet<T> { pub ghost pending: Set<int>, pub ghost ids: Map<int, int>, pub _t: ::std::marker::PhantomData<T> }
         impl<T: TaskOut> JoinSet<T> {
             #[verifier::external_body] pub fn new() -> (r: Self) ensures r.pending == Set::<int>::empty(), r.ids == Map::<int, int>::empty() { unimplemented!() }
+            #[verifier::external_body] pub fn is_empty(&self) -> (r: bool) ensures r == (self.pending =~= Set::<int>::empty()) { unimplemented!() }
             // a task is returned only after its future completed (its process exited and its readers finished); None iff empty
             #[verifier::external_body] pub async fn join_next(&mut self, Tracked(w): Tracked<&mut World>) -> (r: Option<Result<T, JoinError>>)
                 ensures
@@ -547,3 +548,29 @@ pub mod trie_rs {
         { unimplemented!() }
     }
 }
+
+// ---------------- directory listings and file names (unit file): one fixed snapshot during a call ----------------
+pub uninterp spec fn dir_listing(dir: Seq<char>) -> Seq<Seq<char>>;      // paths of the entries of a readable directory
+pub uninterp spec fn is_file_spec(p: Seq<char>) -> bool;
+pub uninterp spec fn unreadable_dir(dir: Seq<char>) -> bool;
+pub uninterp spec fn file_stem_of(p: Seq<char>) -> Option<Seq<char>>;   // Path::file_stem: the file name up to its LAST dot
+pub struct ReadDir { pub ghost dir: Seq<char> }
+pub struct DirEntry { pub ghost p: Seq<char> }
+pub struct OsStr { pub ghost s: Seq<char> }
+impl ReadDir {
+    // R12 target for `entries.flatten()`: the entries of the directory, each exactly once, in listing order
+    #[verifier::external_body] pub fn flatten_vec(self) -> (r: Vec<DirEntry>)
+        ensures r@.len() == dir_listing(self.dir).len(), forall|i: int| 0 <= i < r@.len() ==> (#[trigger] r@[i]).p == dir_listing(self.dir)[i] { unimplemented!() }
+}
+impl DirEntry { #[verifier::external_body] pub fn path(&self) -> (r: path::PathBuf) ensures r@ == self.p { unimplemented!() } }
+pub mod fs_dir {
+    use vstd::prelude::*;
+    use super::*;
+    #[verifier::external_body] pub fn read_dir<P: PathLike + ?Sized>(p: &P) -> (r: Result<ReadDir, std::io::Error>) ensures r matches Ok(rd) ==> rd.dir == p.pview(), r is Err ==> unreadable_dir(p.pview()) { unimplemented!() }
+}
+impl path::Path {
+    #[verifier::external_body] pub fn is_file(&self) -> (r: bool) ensures r == is_file_spec(self@) { unimplemented!() }
+    #[verifier::external_body] pub fn file_stem(&self) -> (r: Option<&OsStr>) ensures (r is Some) == (file_stem_of(self@) is Some), r matches Some(s) ==> Some(s.s) == file_stem_of(self@) { unimplemented!() }
+}
+// R12 target for `stem == name` (OsStr == str)
+#[verifier::external_body] pub fn os_eq(a: &OsStr, b: &str) -> (r: bool) ensures r == (a.s == b@) { unimplemented!() }
